@@ -110,6 +110,73 @@ def make_file(r, pool):
     return A.file(stanzas, inherit=inherit)
 
 
+# ---- shaped files: inheritance chains (outer / middle / inner definitions in every order) and same-range parent/child nodes
+OUTER = [("(module) @m ", "m")]
+MIDDLE = [("(function_definition) @fn ", "fn"), ("(class_definition) @cls ", "cls"), ("(block) @blk ", "blk"), ("(if_statement) @ifs ", "ifs"),
+          ("(for_statement) @fors ", "fors"), ("(call) @cl ", "cl"), ("(assignment) @asg ", "asg"), ("(expression_statement) @es ", "es")]
+INNER = [("(identifier) @id ", "id"), ("(integer) @lit ", "lit"), ("(return_statement) @ret ", "ret"), ("(pass_statement) @ps ", "ps"), ("(attribute) @attrx ", "attrx")]
+SAME_RANGE = [("(expression_statement (_) @e) @s ", "s", "e"), ("(block (_) @only) @blk2 ", "blk2", "only"), ("(module (_) @top) @mod ", "mod", "top"),
+              ("(argument_list (_) @arg) @al ", "al", "arg"), ("(parenthesized_expression (_) @in) @par ", "par", "in")]
+CHAIN_SOURCES = [2, 3, 5, 6, 7, 8, 9, 11, 14, 15, 17]
+
+
+def def_stanza(q, cap, name, tag):
+    return A.stanza(q, [A.let(A.svar(A.cap(cap), name), A.call("format", A.string(tag + ":{}:{}"), A.call("node-type", A.cap(cap)), A.call("start-column", A.cap(cap))))])
+
+
+def read_stanza(q, cap, name, k):
+    v = "rd%d" % k
+    return A.stanza(q, [A.node(A.var(v)), A.attrn(A.var(v), A.attr("at", A.cap(cap)), A.attr("round", A.integer(k)), A.attr("got", A.svar(A.cap(cap), name)))])
+
+
+def chain_file(r):
+    name = r.choice(NAMES)
+    o, m, i = r.choice(OUTER), r.choice(MIDDLE), r.choice(INNER)
+    if r.random() < 0.3:
+        i = r.choice(MIDDLE)
+    steps = [("def", o), ("read", i), ("def", m), ("read", i)]
+    if r.random() < 0.5:
+        steps = [("def", m), ("read", i), ("def", o), ("read", i)]
+    if r.random() < 0.3:
+        steps.insert(r.randrange(len(steps)), ("read", m))
+    if r.random() < 0.2:
+        r.shuffle(steps)
+    stanzas = []
+    for k, (what, (q, cap)) in enumerate(steps):
+        stanzas.append(def_stanza(q, cap, name, "L%d" % k) if what == "def" else read_stanza(q, cap, name, k))
+    return A.file(stanzas, inherit=[name] if r.random() < 0.8 else [])
+
+
+def same_range_file(r):
+    name = r.choice(NAMES)
+    q, parent, child = r.choice(SAME_RANGE)
+    order = r.randrange(4)
+    st = []
+    if order == 0:      # defined on the child, read from the parent
+        st = [A.stanza(q, [A.let(A.svar(A.cap(child), name), A.string("on-child")), A.let(A.var("u"), A.cap(parent))]),
+              A.stanza(q, [A.node(A.var("n")), A.attrn(A.var("n"), A.attr("got", A.svar(A.cap(parent), name))), A.let(A.var("u"), A.cap(child))])]
+    elif order == 1:    # defined on the parent, read from the child
+        st = [A.stanza(q, [A.let(A.svar(A.cap(parent), name), A.string("on-parent")), A.let(A.var("u"), A.cap(child))]),
+              A.stanza(q, [A.node(A.var("n")), A.attrn(A.var("n"), A.attr("got", A.svar(A.cap(child), name))), A.let(A.var("u"), A.cap(parent))])]
+    elif order == 2:    # defined on both, read both
+        st = [A.stanza(q, [A.let(A.svar(A.cap(parent), name), A.string("on-parent")), A.let(A.svar(A.cap(child), name), A.string("on-child"))]),
+              A.stanza(q, [A.node(A.var("n")), A.attrn(A.var("n"), A.attr("p", A.svar(A.cap(parent), name)), A.attr("c", A.svar(A.cap(child), name)))])]
+    else:               # defined on the child; read from the module root (never an ancestor-or-self of ... the child's parent chain only)
+        st = [A.stanza(q, [A.let(A.svar(A.cap(child), name), A.string("on-child")), A.let(A.var("u"), A.cap(parent))]),
+              A.stanza("(module) @m ", [A.node(A.var("n")), A.attrn(A.var("n"), A.attr("got", A.svar(A.cap("m"), name)))])]
+    return A.file(st, inherit=[name] if r.random() < 0.7 else [])
+
+
+def shaped_cases(tier, prefix="c04s"):
+    r = A.rng(44)
+    n = 60 if tier == "quick" else 1500
+    cases = []
+    for k in range(n):
+        prog = chain_file(r) if k % 3 else same_range_file(r)
+        cases += A.both_modes("%s-%d" % (prefix, k), prog, r.choice(CHAIN_SOURCES))
+    return cases
+
+
 def make_cases(tier):
     pool = A.query_pool()
     nsrc = A.n_sources()
@@ -119,7 +186,7 @@ def make_cases(tier):
     for k in range(n):
         prog = make_file(r, pool)
         cases += A.both_modes("c04-%d" % k, prog, r.randint(1, nsrc))
-    return cases
+    return cases + shaped_cases(tier)
 
 
 def judge(run):
